@@ -18,6 +18,14 @@ CHECKS = {
    text="Per enum the generated TryFrom/From conversion functions are computed as functions on the whole backing-type "
         "domain (first-match interval sweep) and compared segment by segment with the reference model: exhaustive over "
         "all integers per enum.", ref="7/C15"),
+ "C18": dict(level="other", technique="MIR dominance/def-use rules on trait Packet's provided methods + syntactic rules on generated impls",
+   text="The four provided methods of pdl_runtime::Packet are checked on rustc's MIR (generic over all implementors): "
+        "decode_full/decode_mut/encode_to_* obey their laws by dominance and value-origin rules; every generated impl "
+        "Packet defines exactly decode/encode/encoded_len and only appends to the output buffer.", ref="7/C18"),
+ "C11": dict(level="other", technique="MIR flow-to-sink (hash-ordered iteration), who-may-call (ambient inputs), call-graph pipeline rules",
+   text="Over rustc's MIR of pdl-compiler, pdlc and pdl-derive: every hash-ordered iteration ends in an order-erasing "
+        "consumer, no ambient input is read, and every generator entry point receives the value of analyze()'s Ok on "
+        "all three front-ends (CLI, #[pdl], #[pdl_inline]).", ref="7/C11"),
 }
 NOT_APPLICABLE = {
  "C19": "Java backend: no Java front-end to the abstract interpreter can be built and validated in this sandbox "
